@@ -8,6 +8,8 @@ EngineEval.lean, EngineRedundant*.lean (and the C11 library). Domain hypothesis:
 import Simfile.Lemmas.EngineBeatInv
 import Simfile.Lemmas.EngineEval
 import Simfile.Lemmas.EngineRedundant
+import Simfile.Lemmas.EngineWarpTag
+import Simfile.Lemmas.EngineCloseA
 import Simfile.Props.C11
 namespace Simfile.C12
 open Simfile C11
@@ -135,5 +137,67 @@ example : ((5 : Rat), (1 : Rat)) ∈ cexTd0.stops ∧
 
 /-- the time window of `inside_pause` / `inside_pause_delay` is never empty: lengths are positive in `Dom` -/
 example (a L : Rat) (hL : 0 < L) : a < a + L / 2 ∧ a + L / 2 < a + L := ⟨by linarith, by linarith⟩
+
+/-! ### B. the WARP tag (bisect_left) against the default tag (bisect_right) -/
+
+/-- B1. at every time the WARP tag answers a beat at or before the answer of the default tag -/
+theorem warp_le_stop (td : TimingData) (h : Dom td) (t : Rat) : beatAt td t .warp ≤ beatAt td t .stop :=
+  beatAt_warp_le_stop h t
+
+/-- B2 (general form, at the time of any timing event `e`, e.g. the start of a warp): the WARP tag answers
+the least tick-aligned beat `b` with `t ≤ T(b, STOP_END)`, the default tag the greatest tick-aligned beat
+`b` with `T(b, WARP) ≤ t` — the first and the last beat "present" at that time -/
+theorem warp_tag_at_event_time (td : TimingData) (h : Dom td) (e : TEvent) (he : e ∈ events td) :
+    IsLeast {b : Rat | onGrid b ∧ Spec.timeSpec td e.beat e.tag ≤ Spec.timeSpec td b .stopEnd}
+      (beatAt td (Spec.timeSpec td e.beat e.tag) .warp) ∧
+    IsGreatest {b : Rat | onGrid b ∧ Spec.timeSpec td b .warp ≤ Spec.timeSpec td e.beat e.tag}
+      (beatAt td (Spec.timeSpec td e.beat e.tag) .stop) :=
+  ⟨warp_at_event_time h he, stop_at_event_time h he⟩
+
+/-- B2 on a coalesced warp segment `[ws, we)` (`segs td.warps` is `coalesceWarps` as pairs), at the time
+`t = T(ws, WARP)` at which the stretch elapses: the WARP tag answers `ws`, the beat where the stretch
+starts (also for `ws = 0`), and the default tag answers the furthest beat reached at that time — the
+greatest tick-aligned `b` with `T(b, WARP) ≤ t` — which is at most `we` -/
+theorem warp_tag (td : TimingData) (h : Dom td) (sg : Rat × Rat) (hsg : sg ∈ segs td.warps) :
+    beatAt td (Spec.timeSpec td sg.1 .warp) .warp = sg.1 ∧
+    IsGreatest {b : Rat | onGrid b ∧ Spec.timeSpec td b .warp ≤ Spec.timeSpec td sg.1 .warp}
+      (beatAt td (Spec.timeSpec td sg.1 .warp) .stop) ∧
+    beatAt td (Spec.timeSpec td sg.1 .warp) .stop ≤ sg.2 := by
+  have hg := beatAt_stop_seg h hsg
+  exact ⟨beatAt_warp_seg h hsg, hg, seg_hi_upper h hsg hg.1.1 hg.1.2⟩
+
+/-- … and when no stop and no delay lies inside the segment the two answers are its two ends -/
+theorem warp_tag_no_pause (td : TimingData) (h : Dom td) (sg : Rat × Rat) (hsg : sg ∈ segs td.warps)
+    (hstops : ∀ e ∈ td.stops, ¬ (sg.1 ≤ e.1 ∧ e.1 < sg.2))
+    (hdelays : ∀ e ∈ td.delays, ¬ (sg.1 ≤ e.1 ∧ e.1 < sg.2)) :
+    beatAt td (Spec.timeSpec td sg.1 .warp) .warp = sg.1 ∧
+    beatAt td (Spec.timeSpec td sg.1 .warp) .stop = sg.2 :=
+  ⟨beatAt_warp_seg h hsg, beatAt_stop_seg_no_pause h hsg hstops hdelays⟩
+
+/-- non-vacuity for B: the warp `(4, 4)` of the sample coalesces to the segment `[4, 8)`; without the stop on
+beat 5 nothing pauses inside it -/
+example : ((4 : Rat), (8 : Rat)) ∈ segs cexTd0.warps := by decide +kernel
+example : Dom { cexTd0 with stops := [] } ∧ ((4 : Rat), (8 : Rat)) ∈ segs ({ cexTd0 with stops := [] }).warps ∧
+    (∀ e ∈ ({ cexTd0 with stops := [] }).stops, ¬ ((4 : Rat) ≤ e.1 ∧ e.1 < 8)) ∧
+    (∀ e ∈ ({ cexTd0 with stops := [] }).delays, ¬ ((4 : Rat) ≤ e.1 ∧ e.1 < 8)) :=
+  ⟨{ cexTd0_dom with stops_pos := by simp, stops_sorted := by simp, stops_grid := by simp },
+   by decide +kernel, by simp, by simp [cexTd0]⟩
+
+/-! ### A. the answer is tick-aligned and its own time is close to the asked time -/
+
+/-- A. with `r := beatAt td t g`: `r` is tick-aligned, and the asked time lies between the declarative time
+of the first key on that beat, `T(r, WARP)`, and of the last one, `T(r, STOP_END)` (so any pause on that
+beat widens the window), up to `H := halfTickTime td r = (1/96)·60 / min (bpmOn td r) (bpmOn td (r − 1/48))`:
+half a tick's duration at the slower of the BPMs in force on the tick before `r` and on the tick from `r`
+(before beat 0 both are the first BPM). For every time `t` (also before `-offset`) and every tag. -/
+theorem close_and_aligned (td : TimingData) (h : Dom td) (t : Rat) (g : Tag) :
+    onGrid (beatAt td t g) ∧
+    Spec.timeSpec td (beatAt td t g) .warp - halfTickTime td (beatAt td t g) ≤ t ∧
+    t ≤ Spec.timeSpec td (beatAt td t g) .stopEnd + halfTickTime td (beatAt td t g) :=
+  ⟨beatAt_grid h t g, beatAt_close td h t g⟩
+
+/-- what `halfTickTime` is -/
+theorem halfTickTime_def (td : TimingData) (r : Rat) :
+    halfTickTime td r = (1 / 96) * 60 / min (Spec.bpmOn td r) (Spec.bpmOn td (r - 1 / 48)) := rfl
 
 end Simfile.C12
